@@ -10,8 +10,8 @@ import (
 
 func init() {
 	register(&propDef{
-		ID: "C03",
-		Explain: "Decided (structural necessary conditions of replay equivalence): every accepted tree write in Target.GnmiUpdate is announced to the feed callback with the leaf it produced before the next write / exit, and every leaf returned by gnmiRemove is announced from an unconditional loop body; gnmiUpdate withholds a result (nil leaf, nil error) iff the leaf exists, the update is not atomic, value.Equal says unchanged and emulation is on — and still moves the stored value; a returned leaf is the GetLeaf result of the written path, after the write; the caller's notification is written only by the nil/restore pair of the multi arm and the restore runs on every exit; no retained append on a foreign or forked base in cache/subscribe/match/path/client-gnmi/ctree (slice aliasing); multi notifications process all updates before any delete, each on a proto.Clone; value.Equal is sound arm by arm; Reset/Remove announce their deletes.",
+		ID:       "C03",
+		Explain:  "Decided (structural necessary conditions of replay equivalence): every accepted tree write in Target.GnmiUpdate is announced to the feed callback with the leaf it produced before the next write / exit, and every leaf returned by gnmiRemove is announced from an unconditional loop body; gnmiUpdate withholds a result (nil leaf, nil error) iff the leaf exists, the update is not atomic, value.Equal says unchanged and emulation is on — and still moves the stored value; a returned leaf is the GetLeaf result of the written path, after the write; the caller's notification is written only by the nil/restore pair of the multi arm and the restore runs on every exit; no retained append on a foreign or forked base in cache/subscribe/match/path/client-gnmi/ctree (slice aliasing); multi notifications process all updates before any delete, each on a proto.Clone; value.Equal is sound arm by arm; Reset/Remove announce their deletes.",
 		NotCover: "replay equivalence over histories as such; that delete notifications carry the right path beyond the aliasing rule; atomic containers 'never partially visible' beyond one write + one announcement",
 		Run:      runC03,
 	})
